@@ -1126,6 +1126,69 @@ func (d *decExtractor) skeletonWith(fd *ast.FuncDecl, before func(*ast.FuncDecl)
 		before(fd)
 	}
 	decClearPos(reflect.ValueOf(fd.Body))
+	// N11: a run of adjacent plain assignments `x = e` (no calls, different targets, no target read by another member of
+	// the run) is written in a fixed order: swapping independent assignments changes nothing
+	decRewriteLists(fd.Body, func(l []ast.Stmt) []ast.Stmt {
+		plain := func(st ast.Stmt) (lhs, rhs string, ok bool) {
+			as, isAs := st.(*ast.AssignStmt)
+			if !isAs || as.Tok != token.ASSIGN || len(as.Lhs) != 1 || len(as.Rhs) != 1 {
+				return "", "", false
+			}
+			calls := false
+			ast.Inspect(as.Rhs[0], func(n ast.Node) bool {
+				if _, c := n.(*ast.CallExpr); c {
+					calls = true
+				}
+				return true
+			})
+			ast.Inspect(as.Lhs[0], func(n ast.Node) bool {
+				switch n.(type) {
+				case *ast.CallExpr, *ast.IndexExpr, *ast.StarExpr:
+					calls = true
+				}
+				return true
+			})
+			if calls {
+				return "", "", false
+			}
+			nzp := &decNormaliser{fset: d.fset}
+			return nzp.print(as.Lhs[0]), nzp.print(as.Rhs[0]), true
+		}
+		for i := 0; i < len(l); {
+			j := i
+			var lhss, rhss []string
+			for j < len(l) {
+				lh, rh, ok := plain(l[j])
+				if !ok {
+					break
+				}
+				indep := true
+				for k := range lhss {
+					if lhss[k] == lh || strings.Contains(rh, lhss[k]) || strings.Contains(rhss[k], lh) || strings.Contains(lh, lhss[k]) || strings.Contains(lhss[k], lh) {
+						indep = false
+					}
+				}
+				if !indep {
+					break
+				}
+				lhss, rhss = append(lhss, lh), append(rhss, rh)
+				j++
+			}
+			if j-i >= 2 {
+				run := l[i:j]
+				sort.SliceStable(run, func(a, b int) bool {
+					la, _, _ := plain(run[a])
+					lb, _, _ := plain(run[b])
+					return la < lb
+				})
+			}
+			if j == i {
+				j = i + 1
+			}
+			i = j
+		}
+		return l
+	})
 	return d.render(fd.Body)
 }
 
